@@ -19,13 +19,17 @@ def fixtures():
         SQUARE = 1
         CIRCLE = 3
 
+    class Facing(S.SerializableEnum):       # a C-style enumeration: the first member's value is 0 (falsy)
+        NORTH = 0
+        SOUTH = 1
+
     class Point(S.Serializable):
         x: object = None
         y: object = None
 
     class Empty(S.Serializable):
         pass
-    _fix.update(S=S, Color=Color, Shape=Shape, Point=Point, Empty=Empty)
+    _fix.update(S=S, Color=Color, Shape=Shape, Facing=Facing, Point=Point, Empty=Empty)
     return _fix
 
 
@@ -35,7 +39,8 @@ def f32(x):
 
 FLOATS = {"0.0": 0.0, "-0.0": -0.0, "1.5": 1.5, "0.1": 0.1, "inf": math.inf, "-inf": -math.inf, "nan": math.nan, "1e-50": 1e-50, "3.4e38": 3.4e38, "16777217.0": 16777217.0, "1e39": 1e39}
 FLOATS32 = {"0.1f": f32(0.1), "16777216.0": 16777216.0, "3.4e38": f32(3.4e38)}
-STRS = {"": "", "a": "a", "multibyte": "héllo ✓ \U0001f600", "nul": "nu\x00l", "L300": "x" * 300, "toolong": "y" * (2 ** 20 + 1), "surrogate": "bad\ud800"}
+STRS = {"": "", "a": "a", "multibyte": "héllo ✓ \U0001f600", "nul": "nu\x00l", "L300": "x" * 300, "toolong": "y" * (2 ** 20 + 1), "surrogate": "bad\ud800",
+        "mb_edge": "\u00e9" * (2 ** 19), "mb_over": "\u00e9" * (2 ** 19 + 1)}
 BYTES = {"": b"", "00ff": b"\x00\xff", "L300": bytes(range(256)) + b"z" * 44, "toolong": b"q" * (2 ** 20 + 1)}
 
 
